@@ -78,11 +78,20 @@ def ftok(x):
     return content.f64tok(float(x))
 
 
+LAYOUT = ['plain']      # memory layout of the index array handed to the package (set by the streams)
+
+
 def build_file(vals, dtype, user=None, window=None, routes=None, indexed=True):
     df = DLISFile(set_identifier='IDX', max_record_length=8192)
     lf = df.add_logical_file()
     lf.add_origin('O', file_set_number=1, creation_time='2020/01/01 00:00:00')
     idx = np.array([float(v) for v in vals], dtype=dtype)
+    if LAYOUT[0] == 'bigendian':
+        idx = idx.astype(idx.dtype.newbyteorder('>'))         # same values, the other byte order
+    elif LAYOUT[0] == 'strided':
+        big = np.zeros(2 * len(idx), dtype=idx.dtype)
+        big[::2] = idx
+        idx = big[::2]
     c0 = lf.add_channel('DEPTH', data=idx, units='m')
     c1 = lf.add_channel('X', data=np.arange(len(vals), dtype=np.float32))
     from dliswriter import AttrSetup
@@ -145,8 +154,10 @@ def run(tier):
             reqs.append('index ' + ','.join(str(int(v * 2 ** k)) for v in vals))
         mreps = model.ask(reqs) if bres.ok else [None] * len(cases)
         for (label, dtype, vals, k), mrep in zip(cases, mreps):
-            case = {'dtype': dtype, 'index_values': [str(v) for v in vals], 'shape': label}
+            LAYOUT[0] = R.choice(['plain', 'plain', 'bigendian', 'bigendian', 'strided'])
+            case = {'dtype': dtype, 'index_values': [str(v) for v in vals], 'shape': label, 'index_array_layout': LAYOUT[0]}
             df = build_file(vals, dtype)
+            LAYOUT[0] = 'plain'
             st, err = call(df.write, path, output_chunk_size=2**20)
             chk.case('index', nontrivial_key=(dtype, tuple(vals)), sample={'dtype': dtype, 'values': [float(v) for v in vals][:6],
                                                                           'shape': label, 'status': st})
